@@ -78,6 +78,15 @@ def _mk(name, items, features=(), **kw):
     return p
 
 
+def _mk_multi(name, main_items, others, features=(), **kw):
+    contracts = {progs.THIS: asm.assemble(main_items)}
+    for a, items in others.items():
+        contracts[a] = asm.assemble(items) if not isinstance(items, (bytes, bytearray)) else bytes(items)
+    p = progs.Prog(name, contracts, **kw)
+    p.features = tuple(sorted(features))
+    return p
+
+
 def specials():
     """hand-written programs for corner cases (each has a stable violation tag)"""
     out = []
@@ -179,6 +188,32 @@ def programs(seed, n, tier, only=None, c02=False):
             except Exception:
                 continue
             if len(p.contracts[progs.THIS]) > 600:
+                continue
+            out.append(p)
+    for fam in ("F6", "F6c", "F7"):
+        if only and fam not in only:
+            continue
+        for k in range(max(4, (n * 6) // 10)):
+            g = gen.G6(f"{fam}-{seed}-{k}", ncd=3 if fam == "F6" else 2)
+            try:
+                if fam == "F6":
+                    main, others = g.f6_calls()
+                    p = _mk_multi(f"{fam}#{seed}-{k}", main, others, features=g.features, ncd=3,
+                                  balances=("this", "caller", gen.A_MUTATE, gen.A_NEST))
+                elif fam == "F6c":
+                    main, others = g.f6_create()
+                    p = _mk_multi(f"{fam}#{seed}-{k}", main, others, features=g.features)
+                else:
+                    main, others = g.f7_loop()
+                    sym = "loop-symbolic" in g.features
+                    p = _mk_multi(f"{fam}#{seed}-{k}", main, others, features=g.features,
+                                  loop_bound=8 if sym else None)
+                    if sym:
+                        p.options = {"loop": g.r.choice([1, 2, 3])}
+            except Exception:
+                import traceback
+
+                traceback.print_exc()
                 continue
             out.append(p)
     if not only or "special" in only:
